@@ -144,6 +144,11 @@ def run_history(case):
                         return f"{where}: {hname}/{dname} reads {v.tolist()} but {exp.tolist()} was written"
                 # by name, not through the child list: concatenated holes load their data on demand
                 names = set(hole[0].get_data_list())
+                # interval logs keep their intervals, depth logs their depths
+                if any(k.endswith("_iv") for k in datas) and not {"FROM", "TO"} <= names:
+                    return f"{where}: {hname} holds the interval logs {sorted(k for k in datas if k.endswith('_iv'))} but lists {sorted(names)}: the intervals (FROM / TO) are gone"
+                if any(not k.endswith(("_iv", "_note")) for k in datas) and "DEPTH" not in names:
+                    return f"{where}: {hname} holds depth logs but lists {sorted(names)}: the depths are gone"
                 extra = names - set(datas) - {"DEPTH", "FROM", "TO"}
                 if extra:
                     return f"{where}: {hname} still lists removed data {sorted(extra)}"
@@ -579,6 +584,9 @@ class ConcatHistories(Contract):
             [("add", 0, "Au"), ("add", 0, "Cu"), ("reopen", 0, ""), ("rename_onto", 0, "Cu"), ("update", 0, "Au"), ("reopen", 0, "")],
             [("add", 0, "Au"), ("add", 0, "Cu"), ("add", 1, "Au"), ("second_group", 0, ""), ("remove", 0, "Au"), ("reopen", 0, "")],
             [("add", 0, "Au"), ("add", 0, "Cu"), ("second_group", 0, ""), ("reopen", 0, ""), ("remove", 0, "Cu"), ("remove", 0, "Au"), ("reopen", 0, "")],
+            # one log of an interval table goes while others stay: the intervals (FROM / TO) stay with them
+            [("add_iv", 0, "Au"), ("add_iv", 0, "Cu"), ("add_iv", 1, "Au"), ("remove", 0, "Au_iv"), ("reopen", 0, ""), ("update_iv", 0, "Cu")],
+            [("add_iv", 0, "Au"), ("add_iv", 0, "Cu"), ("reopen", 0, ""), ("remove", 0, "Cu_iv"), ("reopen", 0, "")],
             [("add", 0, "Au"), ("add", 1, "Au"), ("copy_onto_own_hole", 0, "Au"), ("reopen", 0, "")],
             [("add", 0, "Au"), ("add", 1, "Au"), ("reopen", 0, ""), ("copy_onto_own_hole", 1, "Au"), ("update", 1, "Au"), ("reopen", 0, "")],
         ]
